@@ -5,6 +5,9 @@
    finished their calls). *)
 From Coq Require Import List Arith Bool ZArith.
 From LN Require Import C17_Defs C17_Proofs C17_Statements C17_Termination.
+From Coq Require Import NArith MSets.MSetPositive.
+From LNGen Require Import Src_pool.
+From LN Require Import C17_Fast_Defs C17_Fast C17_Live C17_Commute.
 Import ListNotations.
 
 Theorem C17_at_most_once : forall n thr progs, wf_config n progs = true -> forall p, reachable n thr progs p ->
@@ -104,3 +107,280 @@ Example C17_nonvacuous :
   | None => False
   end.
 Proof. vm_compute. repeat split; reflexivity. Qed.
+
+(* ================================================================================================================
+   EXTENSION 1 -- the fast acceptor over binary ids (C17_Fast_Defs.stepN, extracted and used by the driver for ALL
+   traces, up to the harness' 5000 elements x 4 submitters x 2 calls) is a refinement of the proved model:
+   a bisimulation through abs : poolN -> pool on the states satisfying the representation invariant wfN.
+   ================================================================================================================ *)
+
+(* one step: the proved model does on the abstraction exactly what the fast acceptor does (acceptance AND rejection),
+   and the representation invariant is kept *)
+Theorem C17_fast_refines : forall p e, wfN p ->
+  step (abs p) (abs_e e) = option_map abs (stepN p e) /\ (forall q, stepN p e = Some q -> wfN q).
+Proof. exact fast_refines. Qed.
+Print Assumptions C17_fast_refines.
+
+(* whole traces from the initial state: an accepted trace is an execution of the proved model from a well-formed
+   configuration, so the state reached is `reachable` and every theorem above applies to it *)
+Theorem C17_fast_reachable : forall n thr progs es s,
+  wf_configN n progs = true -> runN (initN n thr progs) es = Some s ->
+  wf_config n (abs_progs progs) = true /\
+  run (init n (abs_thr thr) (abs_progs progs)) (map abs_e es) = Some (abs s) /\
+  reachable n (abs_thr thr) (abs_progs progs) (abs s) /\ wfN s.
+Proof. exact fast_reachable. Qed.
+Print Assumptions C17_fast_reachable.
+
+(* the fast acceptor rejects only traces the proved model rejects (no false rejection introduced by the re-basing) *)
+Theorem C17_fast_complete : forall n thr progs es,
+  runN (initN n thr progs) es = None -> run (init n (abs_thr thr) (abs_progs progs)) (map abs_e es) = None.
+Proof. exact fast_complete. Qed.
+Print Assumptions C17_fast_complete.
+
+(* the well-formedness test with a trie decides the same predicate as the quadratic one *)
+Theorem C17_fast_wf_config : forall n progs, wf_config n (abs_progs progs) = wf_configN n progs.
+Proof. exact wf_config_abs. Qed.
+Print Assumptions C17_fast_wf_config.
+
+(* the enabled set printed by the hang analysis is the enabled set of the proved model *)
+Theorem C17_fast_enabled : forall p, wfN p -> enabled (abs p) = map abs_e (enabledN p).
+Proof. exact enabled_abs. Qed.
+Print Assumptions C17_fast_enabled.
+
+(* the property, read off the fast state itself (these are the fields the driver compares with what the operators saw) *)
+Theorem C17_fast_at_most_once : forall n thr progs es s,
+  wf_configN n progs = true -> runN (initN n thr progs) es = Some s ->
+  NoDup (map fst (f_ran s) ++ map fst (f_inline s)).
+Proof. exact fast_at_most_once. Qed.
+Print Assumptions C17_fast_at_most_once.
+
+Theorem C17_fast_worker_id : forall n thr progs es s,
+  wf_configN n progs = true -> runN (initN n thr progs) es = Some s ->
+  forall t w, In (t, w) (f_ran s) -> tn w < length (f_workers s).
+Proof. exact fast_worker_id. Qed.
+Print Assumptions C17_fast_worker_id.
+
+Theorem C17_fast_map_returns : forall n thr progs es s,
+  wf_configN n progs = true -> runN (initN n thr progs) es = Some s ->
+  forall i r, i < length (f_subs s) -> In r (resultsN (nth i (f_subs s) dsubN)) -> rn_inline r = false ->
+  Forall (fun t => In t (f_finished s) /\
+                   count_occ N.eq_dec (map fst (f_ran s) ++ map fst (f_inline s)) t = 1) (rn_tasks r) /\
+  rn_exn r = (if rn_raise r then find thr (rn_tasks r) else None).
+Proof. exact fast_map_returns. Qed.
+Print Assumptions C17_fast_map_returns.
+
+Theorem C17_fast_shutdown : forall n thr progs es s,
+  wf_configN n progs = true -> runN (initN n thr progs) es = Some s ->
+  f_stop s = true -> finalN s = true -> Forall (fun x => x = WExitedN) (f_workers s).
+Proof. exact fast_shutdown. Qed.
+Print Assumptions C17_fast_shutdown.
+
+Theorem C17_fast_dropped_never_ran : forall n thr progs es s,
+  wf_configN n progs = true -> runN (initN n thr progs) es = Some s ->
+  forall t, In t (f_dropped s) -> ~ In t (map fst (f_ran s)) /\ ~ In t (f_finished s).
+Proof. exact fast_dropped_never_ran. Qed.
+Print Assumptions C17_fast_dropped_never_ran.
+
+(* non-vacuity: the configuration and interleaving of C17_nonvacuous with binary ids: well-formed, accepted, final,
+   same observables; wfN holds of the initial state; and a trace the fast acceptor rejects (pop from an empty queue
+   reported as a pop: the worker sleeps instead -- then a second check of a sleeping worker) *)
+Definition ex_progsN : list (list callN) := [[CMapN [1; 2; 3] true; CEnqueueN 4]; [CDestroyN]]%N.
+Definition ex_traceN : list eventN :=
+  [EPushN 0; ECheckN 0; ENotifyN 0 None; ECheckN 1; EFinishN 1; EFinishN 0; ECheckN 1; ECheckN 0; EFinishN 1;
+   EGetN 0; EGetN 0; EWaitN 0; EWaitN 0; EWaitN 0; EWaitN 0;
+   EPushN 0; ENotifyN 0 (Some 0); EStopN 1; ENotifyStopN 1; ECheckN 0; ECheckN 1; EJoinN 1]%N.
+Example C17_fast_nonvacuous :
+  wf_configN 2 ex_progsN = true /\ wfN (initN 2 (N.eqb 2) ex_progsN) /\
+  map abs_e ex_traceN = ex_trace /\ abs_progs ex_progsN = ex_progs /\
+  match runN (initN 2 (N.eqb 2) ex_progsN) ex_traceN with
+  | Some p => finalN p = true /\ f_stop p = true /\ map fst (rev (f_ran p)) = [1; 2; 3]%N /\ f_dropped p = [4]%N /\
+              map rn_exn (resultsN (nth 0 (f_subs p) dsubN)) = [Some 2%N] /\
+              map rn_inline (resultsN (nth 0 (f_subs p) dsubN)) = [false] /\
+              enabledN p = []
+  | None => False
+  end /\
+  runN (initN 2 (N.eqb 2) ex_progsN) [ECheckN 0; ECheckN 0]%N = None.
+Proof. split; [reflexivity|]. split; [apply wfN_init|]. vm_compute. repeat split; reflexivity. Qed.
+
+(* the decisions of the worker loop and of ~pool_t translated from src/core/parallel.cpp on every run (wait predicate
+   `m_stop || !m_tasks.empty()`, exit test `m_stop`, stored stop value `true`) are what the proved model does; the fast
+   acceptor evaluates the translated tests themselves, so a changed predicate breaks C17_fast_refines as well *)
+Theorem C17_worker_loop_decisions : forall p w q, step p (ECheck w) = Some q ->
+  let pred := src_wait_pred (stop p) (is_nil (queue p)) in
+  let ex := src_exit_test (stop p) (is_nil (queue p)) in
+  (pred = false <-> workers q w = WSleeping) /\
+  (pred = true /\ ex = true <-> workers q w = WExited) /\
+  (pred = true /\ ex = false <-> exists t, workers q w = WRunning t /\ queue p = t :: queue q /\ ran q = ran p ++ [(t, w)]).
+Proof. exact worker_loop_decisions. Qed.
+Print Assumptions C17_worker_loop_decisions.
+
+Theorem C17_stop_value_decision : forall p s q, step p (EStop s) = Some q -> stop q = src_stop_value.
+Proof. exact stop_value_decision. Qed.
+Print Assumptions C17_stop_value_decision.
+
+Example C17_decisions_nonvacuous :
+  (exists q, step (init 1 (fun _ => false) [[]]) (ECheck 0) = Some q /\ workers q 0 = WSleeping) /\
+  (exists p q, run (init 1 (fun _ => false) [[CDestroy]]) [EStop 0] = Some p /\ step p (ECheck 0) = Some q /\ workers q 0 = WExited) /\
+  (exists p q, run (init 2 (fun _ => false) [[CEnqueue 7]]) [EPush 0] = Some p /\ step p (ECheck 1) = Some q /\ workers q 1 = WRunning 7).
+Proof. repeat split; repeat eexists; vm_compute; reflexivity. Qed.
+
+(* ================================================================================================================
+   EXTENSION 2 -- liveness.  Already there: C17_deadlock_free (some step is enabled in a non-final reachable state) and
+   C17_bounded_executions (a spurious-free execution has at most `measure` steps).  New: (i) the enabled step can be
+   chosen non-spurious and then strictly decreases the measure, so under ANY scheduler a spurious-free execution can only
+   stop in a final state (no fairness needed); (ii) with k spurious wake-ups every execution has at most measure + 2k
+   steps; (iii) from every reachable state a spurious-free schedule of at most `measure` steps reaches a terminal state
+   in which every call has returned (one result per map call of the program) and, if ~pool_t is part of the
+   configuration, stop is set and every worker has exited.
+   ================================================================================================================ *)
+Theorem C17_progress_nonspurious : forall n thr progs, wf_config n progs = true ->
+  forall p, reachable n thr progs p -> final p = false ->
+  exists e q, step p e = Some q /\ spurious e = false.
+Proof. exact progress_nonspurious. Qed.
+Print Assumptions C17_progress_nonspurious.
+
+Theorem C17_maximal_runs_end_final : forall n thr progs, wf_config n progs = true ->
+  forall p es q, reachable n thr progs p -> run p es = Some q -> no_spurious es = true ->
+  length es <= measure p /\
+  (final q = true \/ exists e q', step q e = Some q' /\ spurious e = false /\ measure q' < measure q).
+Proof.
+  intros n thr progs Hwf p es q Hr Hrun Hn. split.
+  - pose proof (bounded_executions es p q Hrun Hn). apply (Nat.le_trans _ (length es + measure q)); [apply Nat.le_add_r | assumption].
+  - exact (maximal_runs_end_final n thr progs Hwf p es q Hr Hrun Hn).
+Qed.
+Print Assumptions C17_maximal_runs_end_final.
+
+Theorem C17_bounded_with_spurious : forall es p q,
+  run p es = Some q -> length es + measure q <= measure p + 2 * count_spurious es.
+Proof. exact bounded_with_spurious. Qed.
+Print Assumptions C17_bounded_with_spurious.
+
+Theorem C17_terminates_cleanly : forall n thr progs, wf_config n progs = true ->
+  forall p, reachable n thr progs p ->
+  exists es q, run p es = Some q /\ no_spurious es = true /\ length es <= measure p /\ final q = true /\
+    (forall s, s < ns q -> stg (subs q s) = SReady /\ todo (subs q s) = [] /\
+                          length (results (subs q s)) = count_maps (nth s progs [])) /\
+    (has_destroy progs = true -> stop q = true /\ forall w, w < nw q -> workers q w = WExited).
+Proof. exact terminates_cleanly. Qed.
+Print Assumptions C17_terminates_cleanly.
+
+Theorem C17_final_workers_exited : forall n thr progs, wf_config n progs = true ->
+  forall q, reachable n thr progs q -> final q = true -> has_destroy progs = true ->
+  stop q = true /\ forall w, w < nw q -> workers q w = WExited.
+Proof. exact final_workers_exited. Qed.
+Print Assumptions C17_final_workers_exited.
+
+Example C17_live_nonvacuous :
+  wf_config 2 live_progs = true /\ has_destroy live_progs = true /\
+  measure (init 2 (fun _ => false) live_progs) = 77 /\
+  count_maps (nth 0 live_progs []) = 1 /\
+  reachable 2 (fun _ => false) live_progs (init 2 (fun _ => false) live_progs) /\
+  count_spurious [ECheck 0; ESpurious 0] = 1 /\ no_spurious ex_trace = true /\
+  (exists p, run (init 2 (fun t => Nat.eqb t 2) ex_progs) [EPush 0] = Some p /\ final p = false).
+Proof.
+  destruct live_nonvacuous as [H1 [H2 [H3 [H4 H5]]]]. repeat split; try assumption; try reflexivity.
+  eexists. split; [vm_compute; reflexivity | reflexivity].
+Qed.
+
+(* ================================================================================================================
+   EXTENSION 3 -- the atomicity reduction.  The model takes each block under the queue mutex as one step and the tie
+   linearises hook events by a global sequence number.  Events inside the mutex (EPush on the pool path, ECheck,
+   EStop) are ordered by the mutex (the harness verifies for each of them that the emitting thread holds it).  For
+   the others (`lockfree`) the sequence number is taken some time after the action; the theorems below say that this
+   does not matter: a lock-free event neither reads nor writes queue / stop / ran, and two enabled events of
+   different threads, at least one of them lock-free and not both acting on the condition variable (whose notify /
+   wait operations are totally ordered by the condition variable itself), can be taken in either order with the
+   same result -- for the whole remaining trace.  DESIGN section 4 listed this as a trusted assumption.
+   ================================================================================================================ *)
+Theorem C17_lockfree_frame : forall p e q, lockfree p e = true -> step p e = Some q ->
+  queue q = queue p /\ stop q = stop p /\ ran q = ran p /\ dropped q = dropped p /\ nw q = nw p /\ ns q = ns p.
+Proof. exact lockfree_frame. Qed.
+Print Assumptions C17_lockfree_frame.
+
+Theorem C17_lockfree_blind : forall p e qu st rn, lockfree p e = true ->
+  step (set_locked p qu st rn) e = option_map (fun q => set_locked q qu st rn) (step p e).
+Proof. exact lockfree_blind. Qed.
+Print Assumptions C17_lockfree_blind.
+
+(* what each lock-free event writes: the emitting thread's own component, plus the futures it completes
+   (`finished` / `inline`) or the sleepers it wakes *)
+Theorem C17_lockfree_own_component :
+  (forall p s q, step p (EGet s) = Some q -> exists x, q = set_sub p s x) /\
+  (forall p s q, step p (EWait s) = Some q -> exists x, q = set_sub p s x) /\
+  (forall p s q, step p (EJoin s) = Some q -> exists x, q = set_sub p s x) /\
+  (forall p w q, step p (EFinish w) = Some q ->
+     exists t, workers p w = WRunning t /\ q = add_finished (set_worker p w WIdle) [t]) /\
+  (forall p w q, step p (ESpurious w) = Some q -> workers p w = WSleeping /\ q = set_worker p w WIdle) /\
+  (forall p s o q, step p (ENotify s o) = Some q ->
+     exists x, (o = None /\ q = set_sub p s x) \/
+               (exists w, o = Some w /\ workers p w = WSleeping /\ q = set_sub (set_worker p w WIdle) s x) \/
+               (o = None /\ q = set_sub (wake p) s x)) /\
+  (forall p s q, step p (ENotifyStop s) = Some q -> exists x, q = set_sub (wake p) s x) /\
+  (forall p s q, lockfree p (EPush s) = true -> step p (EPush s) = Some q ->
+     exists x l, q = set_sub (add_inline (add_finished p l) (map (fun t => (t, s)) l)) s x).
+Proof.
+  split; [exact own_EGet|]. split; [exact own_EWait|]. split; [exact own_EJoin|]. split; [exact own_EFinish|].
+  split; [exact own_ESpurious|]. split; [exact own_ENotify|]. split; [exact own_ENotifyStop | exact own_EPush_inline].
+Qed.
+Print Assumptions C17_lockfree_own_component.
+
+Theorem C17_lockfree_events_commute :
+  forall n thr progs, wf_config n progs = true -> forall p e1 e2 q1 q2,
+  reachable n thr progs p -> actor_of e1 <> actor_of e2 ->
+  lockfree p e1 = true \/ lockfree p e2 = true ->
+  cv_action p e1 && cv_action p e2 = false ->
+  step p e1 = Some q1 -> step p e2 = Some q2 ->
+  exists r1 r2, step q1 e2 = Some r1 /\ step q2 e1 = Some r2 /\ peq r1 r2.
+Proof. exact lockfree_events_commute. Qed.
+Print Assumptions C17_lockfree_events_commute.
+
+(* the linearisation order of the two events is immaterial for the acceptance of the whole trace and for what the
+   final state says (peq: equal up to the order in which concurrent completions were logged; C17_peq_observables) *)
+Theorem C17_linearisation_immaterial :
+  forall n thr progs, wf_config n progs = true -> forall p e1 e2 q1 q2,
+  reachable n thr progs p -> actor_of e1 <> actor_of e2 ->
+  lockfree p e1 = true \/ lockfree p e2 = true -> cv_action p e1 && cv_action p e2 = false ->
+  step p e1 = Some q1 -> step p e2 = Some q2 ->
+  forall es r, run p (e1 :: e2 :: es) = Some r -> exists r', run p (e2 :: e1 :: es) = Some r' /\ peq r r'.
+Proof. exact swap_adjacent. Qed.
+Print Assumptions C17_linearisation_immaterial.
+
+Theorem C17_peq_observables : forall p q, peq p q ->
+  final p = final q /\ ran p = ran q /\ dropped p = dropped q /\
+  (forall s, results (subs p s) = results (subs q s)) /\
+  (forall t, complete p t = complete q t) /\
+  (forall t, In t (finished p) <-> In t (finished q)) /\
+  (forall x, In x (inline p) <-> In x (inline q)).
+Proof. exact peq_observables. Qed.
+Print Assumptions C17_peq_observables.
+
+(* without the condition-variable side condition the statement is false: two notify_one of different threads for the
+   same sleeping worker are both enabled and each disables the other (on a reachable state of a well-formed
+   configuration) *)
+Theorem C17_commute_without_cv_condition_refuted :
+  exists n thr progs es p e1 e2,
+    wf_config n progs = true /\ run (init n thr progs) es = Some p /\
+    actor_of e1 <> actor_of e2 /\ lockfree p e1 = true /\ lockfree p e2 = true /\
+    cv_action p e1 && cv_action p e2 = true /\
+    step p e1 <> None /\ step p e2 <> None /\
+    (forall q1, step p e1 = Some q1 -> step q1 e2 = None) /\
+    (forall q2, step p e2 = Some q2 -> step q2 e1 = None).
+Proof. exact commute_without_cv_condition_refuted. Qed.
+Print Assumptions C17_commute_without_cv_condition_refuted.
+
+Example C17_commute_nonvacuous :
+  let p := state_after 2 (fun _ => false) nv_progs nv_trace in
+  wf_config 2 nv_progs = true /\ reachable 2 (fun _ => false) nv_progs p /\
+  (actor_of (EGet 0) <> actor_of (EFinish 1) /\ lockfree p (EGet 0) = true /\ lockfree p (EFinish 1) = true /\
+   cv_action p (EGet 0) && cv_action p (EFinish 1) = false /\ step p (EGet 0) <> None /\ step p (EFinish 1) <> None) /\
+  (actor_of (EFinish 1) <> actor_of (ECheck 0) /\ lockfree p (EFinish 1) = true /\ lockfree p (ECheck 0) = false /\
+   cv_action p (EFinish 1) && cv_action p (ECheck 0) = false /\ step p (ECheck 0) <> None) /\
+  match step p (EGet 0), step p (EFinish 1) with
+  | Some q1, Some q2 =>
+      match step q1 (EFinish 1), step q2 (EGet 0) with
+      | Some r1, Some r2 => finished r1 = [1; 2] /\ finished r2 = [1; 2] /\ stg (subs r1 0) = stg (subs r2 0)
+      | _, _ => False
+      end
+  | _, _ => False
+  end.
+Proof. exact commute_nonvacuous. Qed.
